@@ -62,24 +62,21 @@ def fmt(dtype):
 
 # ----------------------------------------------------------------------------------------- known-finding regions
 def classify_group(vals, bits, dtype):
-    """region of the input space a group of source values falls in (Python side of the region predicates)"""
+    """region of the input space a group of source values falls in (Python side of the region predicates; mirrors the
+    range the MaxOptimizer uses: the hull of the group and zero)"""
     f = fmt(dtype)
-    lo, hi = min(vals), max(vals)
     if any(v != v or abs(v) == float("inf") for v in vals):
         return "non-finite-input"
+    lo, hi = min(list(vals) + [0.0]), max(list(vals) + [0.0])
     if Fraction(hi) - Fraction(lo) > Fraction(f["fmax"]):
         return "range-overflow"
-    if lo == hi:
-        return "constant-group"
     n = 2**bits - 1
     t = torch.tensor([lo, hi], dtype=torch.float64).to(dtype)
     scale = (t[1] - t[0]) / n
     if float(scale) == 0.0:
-        return "constant-group"
+        return None if hi == lo else "zero-scale-underflow"
     zpf = float(torch.round(-t[0] / scale))
-    if zpf != zpf or abs(zpf) == float("inf"):
-        return "zeropoint-overflow"
-    if zpf > 127 or zpf < -128:
+    if zpf != zpf or abs(zpf) == float("inf") or zpf > 127 or zpf < -128:
         return "zeropoint-overflow"
     if zpf < -(127 - n):
         return "code-minus-zeropoint-overflow"
